@@ -119,6 +119,7 @@ def valid_dim(dim, n):
     return And(Implies(dim.is_("OneD"), And(Eq(n.c[1], R0), Eq(n.c[2], R0))), Implies(dim.is_("TwoD"), Eq(n.c[2], R0)))
 
 
+@isolated('face_rule')
 def emit_obligations(prefix, want=("reciprocal", "partial", "sym")):
     E = Emit()
     S = SymSkip() if "sym" in want else None
@@ -180,6 +181,7 @@ def emit_obligations(prefix, want=("reciprocal", "partial", "sym")):
     return obs, fns
 
 
+@isolated('construct_or_default')
 def constructed_iff_selected_obligations(prefix):
     """The per-cell closures: a cell is constructed iff no mask or mask[idx]; otherwise VoronoiCell::default() / None."""
     obs, fns = [], []
@@ -335,6 +337,7 @@ def replay_shift_mapping(ob=None):
     return {"reproduced": bad is not None, "searched": n, "mismatch": bad}
 
 
+@isolated('shift')
 def shift_mapping_obligations(prefix):
     """rtree_nn::wrapping_nn_iter's closure: query shift sigma -> None iff sigma == 0, else Some(-sigma)."""
     u = Unit("rtree_nn.rs", "wrapping_nn_iter")
